@@ -5,6 +5,7 @@ import (
 	"sort"
 
 	"github.com/zclconf/go-cty/cty"
+	"github.com/zclconf/go-cty/cty/convert"
 )
 
 func init() {
@@ -525,10 +526,52 @@ func init() {
 		if len(a) == 0 {
 			return rErr("no arguments")
 		}
+		same, allPrim, anyPrim, anyStruct := true, true, false, false
 		for _, v := range a {
-			if !v.Type().Equals(a[0].Type()) {
-				return rUnspec("arguments of different types (unification)")
+			t := v.Type()
+			if !t.Equals(a[0].Type()) {
+				same = false
 			}
+			switch {
+			case isPrimitiveTy(t):
+				anyPrim = true
+			case t == cty.DynamicPseudoType || t.IsCapsuleType():
+				return rUnspec("untyped null or capsule argument")
+			default:
+				allPrim = false
+				anyStruct = true
+			}
+		}
+		if !same {
+			if anyPrim && anyStruct {
+				return rErr("a primitive and a collection or structural type have no common type")
+			}
+			if !allPrim {
+				return rUnspec("collection / structural arguments of different types (unification)")
+			}
+			// primitives of different types unify to string when one of them is a string (the
+			// documented primitive conversions: number and bool to string are safe, nothing else
+			// is; a number and a bool alone have no common type); the type is decided by all
+			// arguments, null or not, the value by the first argument that is not null
+			hasStr := false
+			for _, v := range a {
+				if v.Type() == cty.String {
+					hasStr = true
+				}
+			}
+			if !hasStr {
+				return rErr("a number and a bool have no common type")
+			}
+			for _, v := range a {
+				if !v.IsNull() {
+					r, err := convert.Convert(v, cty.String)
+					if err != nil {
+						return rUnspec("conversion to string failed")
+					}
+					return rOK(r)
+				}
+			}
+			return rErr("no non-null argument")
 		}
 		for _, v := range a {
 			if !v.IsNull() {
